@@ -1,7 +1,7 @@
 """Shared pieces of the `hist` engine checks (C13, C14)."""
 from vlib import core
 
-MAXSLOTS = {"vsbx2": 2, "vsbx8": 8, "noop": 64}
+MAXSLOTS = {"vsbx2": 2, "vsbx8": 8, "vsbx8n": 8, "noop": 64}   # vsbx8n: the same backend without needs_internal_lookup_symbol
 LIBVAL = {("whoami", 0): 1, ("whoami", 1): 2, ("other", 0): 11, ("other", 1): 12}
 LIBNAME = {0: "libA", 1: "libB"}
 
